@@ -215,7 +215,7 @@ def strategy(tier):
     from hypothesis import strategies as st
     from vfw.gen_spec import model_spec, profile
     prof = profile(styles=['dense'], assembled=False, p_f4=0.03, p_neg_index=0.25, p_imp=0.15,
-                   cyc_nl=['nlbgs', 'nlbgs', 'newton', 'nlbj'], cyc_ln=['direct'], max_comps=4, auto_ivc=0.15, promotions=0.3)
+                   cyc_nl=['nlbgs', 'nlbgs', 'newton', 'nlbj'], cyc_ln=['direct'], max_comps=4, auto_ivc=0.15, promotions=0.3, chains=0.3)
     discrete = st.fixed_dictionaries({
         'kind': st.just('discrete'), 'via': st.sampled_from(['connect', 'promote']),
         'obj': st.sampled_from(['int', 'str', 'list', 'dict', 'none']), 'nested': st.booleans(),
